@@ -1394,7 +1394,13 @@ def run(ctx, pid, module=None):
         if name.startswith(pre) and callable(ns[name]):
             fn = ns[name]
             try:
-                found = fn(ctx) if fn.__code__.co_argcount else fn()
+                # under a deadline: a library call that never returns (a lock left held by an earlier
+                # failure) is a finding, and nothing after it in this process can be trusted
+                ok, found = _with_deadline((lambda: fn(ctx)) if fn.__code__.co_argcount else fn, 180.0)
+                if not ok:
+                    ctx.violation('%s/%s/does-not-return' % (tag, name[4:]), {'kind': 'extra11', 'name': name, 'module': tag},
+                                  'the sub-check %s did not return within 180 s (a library call blocks)' % name)
+                    break
             except core.Machinery:
                 raise
             except Exception as e:
